@@ -113,8 +113,51 @@ C12ok(E, tags, fin) ==
                        /\ IsSuffixOf(IF d[1] = 9 THEN Tail(d) ELSE d, all) /\ (d[1] = 9 => Tail(d) = all)
                        /\ IsSuffixOf(CallsAfter(E, s, SubRet(E, u)), ds)
 
-Judge(E, tags, fin) ==
-  [C19 |-> IF C19ok(E) THEN "ok" ELSE "bad", C05 |-> IF C05ok(E) THEN "ok" ELSE "bad",
+\* ---------------------------------------------------------------- C08: scheduler queue
+\* events: postcall / postret(task) on the posting thread, abortcall / abortret, start / end(task) on the thread that runs it.
+\* q = [fin, nblocked, nparked]: the runtime's final verdict (every thread finished / which threads are blocked forever on what).
+\* tags: "queue" (new-thread scheduler) or "default_queue"; "clients:<n>" = logical threads 1..n are the posting client threads.
+PosOf(E, name, task) == IF \E p \in Pos(E) : E[p].ev = name /\ E[p].task = task THEN CHOOSE p \in Pos(E) : E[p].ev = name /\ E[p].task = task ELSE 0
+TasksStarted(E) == { E[p].task : p \in { p \in Pos(E) : E[p].ev = "start" } }
+TasksPosted(E) == { E[p].task : p \in { p \in Pos(E) : E[p].ev = "postret" } }
+AbortRets(E) == { p \in Pos(E) : E[p].ev = "abortret" }
+AbortCalls(E) == { p \in Pos(E) : E[p].ev = "abortcall" }
+C08ok(E, tags, q) ==
+  LET starts == { p \in Pos(E) : E[p].ev = "start" }
+      nclients == TagNum(tags, "clients:", 0)
+      firstAbortRet == IF AbortRets(E) = {} THEN 0 ELSE CHOOSE p \in AbortRets(E) : \A r \in AbortRets(E) : p <= r
+      inProgressAt(p) == \E s \in starts : s < p /\ ~\E e \in (s + 1)..(p - 1) : E[e].ev = "end" /\ E[e].task = E[s].task
+  IN IF HasTag(tags, "default_queue")
+     THEN \* the default scheduler runs the task synchronously inside post(), on the caller's thread
+          \A s \in starts : LET a == E[s].task IN
+             /\ PosOf(E, "postcall", a) # 0 /\ PosOf(E, "postcall", a) < s /\ PosOf(E, "end", a) # 0 /\ PosOf(E, "end", a) < PosOf(E, "postret", a)
+             /\ E[s].t = E[PosOf(E, "postcall", a)].t
+     ELSE
+     /\ \A s1, s2 \in starts : s1 # s2 => E[s1].task # E[s2].task                                   \* each at most once
+     /\ \A s \in starts : PosOf(E, "postcall", E[s].task) # 0 /\ PosOf(E, "postcall", E[s].task) < s       \* only posted tasks
+     /\ \A s1, s2 \in starts : s1 < s2 => \E e \in (s1 + 1)..(s2 - 1) : E[e].ev = "end" /\ E[e].task = E[s1].task   \* one at a time
+     /\ \A s1, s2 \in starts : E[s1].t = E[s2].t                                                       \* all on one thread ...
+     /\ \A s \in starts : \A p \in Pos(E) : (E[p].ev = "postcall" /\ E[p].task < 100) => E[s].t # E[p].t       \* ... that is not a posting client thread (tasks >= 100 are posted from inside a task)
+     \* FIFO: if post(a) returned before post(b) was called, a does not start after b
+     /\ \A s1, s2 \in starts : (PosOf(E, "postret", E[s1].task) # 0 /\ PosOf(E, "postret", E[s1].task) < PosOf(E, "postcall", E[s2].task)) => s1 < s2
+     \* ... and b cannot be run at all while such an a is skipped, unless an abort may have discarded a
+     /\ \A s2 \in starts : \A a \in TasksPosted(E) : (PosOf(E, "postret", a) < PosOf(E, "postcall", E[s2].task) /\ a \notin TasksStarted(E)) => AbortCalls(E) # {}
+     \* after abort returned no further task is taken: nothing posted afterwards ever runs, and at most the task already in hand starts
+     /\ firstAbortRet # 0 =>
+          /\ \A s \in starts : PosOf(E, "postcall", E[s].task) > firstAbortRet => FALSE
+          /\ Cardinality({ s \in starts : s > firstAbortRet }) <= (IF inProgressAt(firstAbortRet) THEN 0 ELSE 1)
+     \* quiescence: with an abort the worker thread terminates (every thread finished); without one it is parked on the condition
+     \* variable, every call returned and every posted task has run (no lost wake-up)
+     /\ (AbortCalls(E) # {} => q.fin = "ok")
+     /\ (AbortCalls(E) = {} => /\ q.fin = "stuck" /\ q.nblocked = 1 /\ q.nparked = 1
+                               /\ \A a \in TasksPosted(E) : a \in TasksStarted(E) /\ PosOf(E, "end", a) # 0)
+     /\ \A p \in Pos(E) : E[p].ev = "postcall" => PosOf(E, "postret", E[p].task) # 0                   \* every post() returned
+     /\ Cardinality(AbortCalls(E)) = Cardinality(AbortRets(E))                                          \* every abort() returned
+
+Judge(E, tags, q) ==
+  LET fin == q.fin IN
+  [C08 |-> IF ~(HasTag(tags, "queue") \/ HasTag(tags, "default_queue")) \/ C08ok(E, tags, q) THEN "ok" ELSE "bad",
+   C19 |-> IF C19ok(E) THEN "ok" ELSE "bad", C05 |-> IF C05ok(E) THEN "ok" ELSE "bad",
    C11 |-> IF C11ok(E, tags, fin) THEN "ok" ELSE "bad", C12 |-> IF C12ok(E, tags, fin) THEN "ok" ELSE "bad",
-   C07 |-> IF fin = "ok" THEN "ok" ELSE "bad"]
+   C07 |-> IF fin = "ok" \/ (HasTag(tags, "queue") /\ fin = "stuck" /\ q.nblocked = q.nparked) THEN "ok" ELSE "bad"]
 =============================================================================
